@@ -59,10 +59,10 @@ PATTERN = {  # the 11 pattern strings of asynq's boilerplate runs (Diag.tla: A1 
     "C2": "asynq.decorators.AsyncProxyDecorator._call_pure",
     "C3": "asynq.decorators.async_call",
 }
-MARKER = {
-    "  ___asynq_continue___\n": "M1",
-    "  ___asynq_future_raise_if_error___\n": "M2",
-    "  ___asynq_call_pure___\n": "M3",
+MARKER = {  # marker lines are recognised up to surrounding white space
+    "___asynq_continue___": "M1",
+    "___asynq_future_raise_if_error___": "M2",
+    "___asynq_call_pure___": "M3",
 }
 
 
@@ -113,7 +113,7 @@ def check_table():
             has = sorted(p for p, s in PATTERN.items() if s in line)
             if has != sorted(pats):
                 raise AssertionError("rendering of class %s contains %s, spec says %s" % (c, has, pats))
-            if line in MARKER:
+            if line.strip() in MARKER:
                 raise AssertionError("rendering equals a marker")
     _table_checked = True
 
@@ -126,10 +126,10 @@ def run_filter(case):
     out = asynq.debug.filter_traceback(list(lines))
     toks = []
     for l in out:
-        if l in MARKER:
-            toks.append(MARKER[l])
-        elif l in index:
+        if l in index:
             toks.append(index[l])
+        elif l.strip() in MARKER:
+            toks.append(MARKER[l.strip()])
         else:
             toks.append("?" + repr(l))
     got = "".join(x + "," for x in toks)
@@ -358,6 +358,8 @@ def run_life(case):
 
     def P(j, obj):
         f = diag(obj)
+        if got[j][0] == "raised":  # a state observed twice: keep the failures
+            f = got[j][1] + f
         got[j] = ["ok"] if not f else ["raised", f]
 
     asynq.scheduler.reset()
@@ -397,6 +399,10 @@ def drive_future(ops, n, P):
             f.set_value(f)
         elif op == "set_cycle":
             f.set_value([f, {"k": (f,)}])
+        elif op == "set_mutual":
+            g = Future(prov)
+            g.set_value(f)
+            f.set_value(g)
         elif op == "reset":
             f.reset_unsafe()
         else:
@@ -585,6 +591,7 @@ def drive_sched(ops, n, P):
             P(idx["flush"], S())
 
     b = HB(hook)
+    b2 = HB(hook)  # a second batch: still scheduled while the first one is being flushed
 
     @A()
     def inner():
@@ -596,6 +603,11 @@ def drive_sched(ops, n, P):
     @A()
     def blocker():
         yield It(b)
+        return 1
+
+    @A()
+    def blocker2():
+        yield It(b2)
         return 1
 
     @A()
@@ -611,7 +623,7 @@ def drive_sched(ops, n, P):
         if "nested" in idx:
             inner()
         if "schedule_batch" in idx:
-            yield (blocker.asynq(), prober.asynq())
+            yield (blocker.asynq(), blocker2.asynq(), prober.asynq())
         return 0
 
     root()
